@@ -442,7 +442,7 @@ def r5(R, repo):
       'flax.nnx.statelib:FlatState.__getitem__': 'slice of a sorted flat state',
   }
   n_ctor = 0
-  for m in repo.mods.values():
+  for m in repo.mods_with('FlatState'):
     for f in m.funcs.values():
       for call in astu.func_calls(f):
         d = astu.call_name(call)
@@ -461,7 +461,7 @@ def r5(R, repo):
             R.fail(key, (f, call), 'FlatState constructed without sorting outside the order-preserving sites %s; '
                    'split/merge/update rely on sorted paths' % sorted(UNSORTED_OK))
   SORTED_CALLERS = {'flax.nnx.graph:flatten', 'flax.nnx.graph:SplitContext.flatten'}
-  for m in repo.mods.values():
+  for m in repo.mods_with('from_sorted_keys_values'):
     for f in m.funcs.values():
       for call in astu.func_calls(f):
         if astu.call_tail(call) == 'from_sorted_keys_values':
